@@ -11,6 +11,7 @@ import (
 	"sort"
 	"strings"
 	"sync"
+	"sync/atomic"
 	"time"
 
 	bs "github.com/danthegoodman1/bloomsearch"
@@ -71,6 +72,7 @@ type Obs struct {
 	Err    string     `json:"err"`
 	Res    []int      `json:"res"`
 	Alien  int        `json:"alien"`
+	Shared int        `json:"shared"` // returned rows that changed when arrays of returned rows were appended to
 	Res2   []int      `json:"res2"`
 	Conc   [][]int    `json:"conc"`
 	HasPre bool       `json:"has_pre"`
@@ -131,6 +133,7 @@ type executor struct {
 	seed    int64
 	scratch string
 	legacy  bool // the case in progress feeds the engines legacy ("") compression metadata
+	shared  atomic.Int64 // returned rows that changed when other returned values were appended to
 }
 
 // legacyMeta yields uncompressed blocks the way old files describe them: Compression "" instead of "none".
@@ -225,6 +228,35 @@ func mutate(v any) {
 	}
 }
 
+// grow appends to every array reachable from a returned row and drops the result: the row itself is unchanged, but an
+// array whose spare capacity runs into storage another array (of this row or of another one) was carved from is
+// written through into that neighbour.
+func grow(v any) {
+	switch x := v.(type) {
+	case map[string]any:
+		for _, c := range x {
+			grow(c)
+		}
+	case []any:
+		for _, c := range x {
+			grow(c)
+		}
+		y := append(x, "GROWN")
+		for len(y) < cap(x) {
+			y = append(y, "GROWN")
+		}
+	}
+}
+
+func matchesTrip(row map[string]any, ts []map[string]any) bool {
+	for _, t := range ts {
+		if reflect.DeepEqual(t, row) {
+			return true
+		}
+	}
+	return false
+}
+
 // runQuery executes q and maps returned rows to case row indices.
 func (x *executor) runQuery(e *bs.BloomSearchEngine, q *bs.Query, trips map[int][]map[string]any, doMutate bool) (res []int, alien int, errs string, stats bs.QueryStats) {
 	r, err := e.Query(context.Background(), q)
@@ -234,6 +266,7 @@ func (x *executor) runQuery(e *bs.BloomSearchEngine, q *bs.Query, trips map[int]
 	defer r.Close()
 	res = []int{}
 	var got []map[string]any
+	var oks []bool
 	for r.Next() {
 		row := r.Row()
 		i := rowIndex(row)
@@ -249,8 +282,19 @@ func (x *executor) runQuery(e *bs.BloomSearchEngine, q *bs.Query, trips map[int]
 		}
 		res = append(res, i)
 		got = append(got, row)
+		oks = append(oks, ok)
 	}
 	if doMutate {
+		// first through the arrays' spare capacity (which leaves independent rows as they were), then destructively
+		for _, row := range got {
+			grow(row)
+		}
+		for k, row := range got {
+			// a row that already differed when it was returned has been counted; this one changed under the appends
+			if oks[k] && !matchesTrip(row, trips[res[k]]) {
+				x.shared.Add(1)
+			}
+		}
 		for _, row := range got {
 			mutate(row)
 		}
@@ -548,6 +592,7 @@ func (x *executor) Run(c *Case) *Obs {
 		wg.Wait()
 		o.Conc = out
 	}
+	o.Shared = int(x.shared.Swap(0))
 	o.Res, o.Res2, o.Pre = sortedCopy(o.Res), sortedCopy(o.Res2), sortedCopy(o.Pre)
 	for i := range o.Conc {
 		o.Conc[i] = sortedCopy(o.Conc[i])
